@@ -13,7 +13,8 @@ try:
     if a.returncode != 0:
         print('patch does not apply', a.stderr); sys.exit(2)
     t0 = time.time()
-    p = subprocess.run(['/verif/check', prop, '--tier', tier, '--repo', tmp], capture_output=True, text=True, cwd='/verif')
+    env = dict(os.environ, VERIF_EVIDENCE_DIR=os.path.join(tmp, 'evidence-out'))
+    p = subprocess.run(['/verif/check', prop, '--tier', tier, '--repo', tmp], capture_output=True, text=True, cwd='/verif', env=env)
     out = p.stdout + p.stderr
     viol = re.findall(r'VIOLATION property=\S+ replay=(\S+)(.*)', out)
     obligations = []
